@@ -259,6 +259,21 @@ def write_replay(prop, rec, res):
     return path
 
 
+def _fail_key(i):
+    return i['unit'] or ('L:' + ((i.get('site') or {}).get('text') or i['message']))
+
+
+def _real_failures(r):
+    """keys of the failed obligations that are neither vacuity twins, consistency guards nor finding twins"""
+    out = set()
+    for i in r['issues']:
+        reg = i.get('region') or ''
+        if i['kind'] != 'verification' or reg.startswith('vac') or reg == 'guard' or reg.startswith('finding:'):
+            continue
+        out.add(_fail_key(i))
+    return out
+
+
 def check_property(prop, tier, seed, rebaseline=False):
     t0 = time.time()
     kf = known_findings()
@@ -279,7 +294,29 @@ def check_property(prop, tier, seed, rebaseline=False):
             if any(i['kind'] == 'resource' for i in r['issues']) or r['verus']['rc'] == 124:
                 r2 = vrun.run_template(t, open_f.keys(), seed=sd, rlimit=rl * 5, tag='__' + prop)
                 r2['retried_with_rlimit'] = rl * 5
-                return r2
+                r = r2
+            # an obligation that fails to discharge decides nothing by itself (the SMT search depends on symbol names): before it
+            # is reported, the same text is verified again under two other file names; an obligation discharged in ANY complete run
+            # is proved (every run is a full proof attempt of the same text), only one that fails in all of them is reported
+            if _real_failures(r) and r['verus']['json'] is not None and not any(i['kind'] == 'tool' for i in r['issues']):
+                alts = []
+                for k in ('r1', 'r2'):
+                    ra = vrun.run_template(t, open_f.keys(), seed=sd, rlimit=rl * 5, tag='__' + prop + k)
+                    if ra['verus']['json'] is not None and not any(i['kind'] in ('tool', 'resource') for i in ra['issues']):
+                        alts.append(ra)
+                    if alts and not _real_failures(ra):
+                        break
+                rescued = set()
+                for key in _real_failures(r):
+                    if any(key not in _real_failures(ra) for ra in alts):
+                        rescued.add(key)
+                if rescued:
+                    r['issues'] = [i for i in r['issues'] if not (i['kind'] == 'verification' and _fail_key(i) in rescued)]
+                    for fn, fv in r['functions'].items():
+                        if not fv['success'] and any(ra['functions'].get(fn, {}).get('success') for ra in alts):
+                            fv['success'] = True
+                    r['proved_under_alternative_names'] = sorted(rescued)
+                r['alternative_name_runs'] = len(alts)
             return r
         except LostAnchor as e:
             return ('lost', t, str(e))
